@@ -348,13 +348,14 @@ theorem last_update_block_lost_witness :
 /-- PARTIAL. A historical reader that was handed out earlier keeps reading exactly its block's state for as
 long as its block stays at or above one below the floor — on the new backend for ever (its history is never
 pruned). What is missing: `held_reader_across_prune_stale`. -/
-theorem held_reader_partial (c : Cfg) (s : St) (R : Reach c s) (h : Nat) (hh : s.db.height = some h)
-    (b : Nat) (hc : c.legacy = false ∨ effFloor s ≤ b + 1) : heldRead c s b = .ok := by
+theorem held_reader_partial (c : Cfg) (hg : c.readerGuard = false) (s : St) (R : Reach c s) (h : Nat)
+    (hh : s.db.height = some h) (byHash : Bool) (b : Nat) (hc : c.legacy = false ∨ effFloor s ≤ b + 1) :
+    heldRead c s byHash b = .ok := by
   have I := inv_reach R
   unfold Inv at I; rw [hh] at I; obtain ⟨a, IA, _⟩ := I
   unfold heldRead
   rw [hh]
-  simp only
+  simp only [hg, Bool.false_and, Bool.false_eq_true, if_false]
   apply stateRead_ok
   intro hleg
   rcases hc with hc | hc
@@ -375,9 +376,33 @@ theorem held_reader_across_prune_stale :
     answer repairedCfg (run repairedCfg St.init (prunedTo6.take 9)) .stateAtNumber 2 = .ok ∧
     Reach repairedCfg (run repairedCfg St.init prunedTo6) ∧
     answer repairedCfg (run repairedCfg St.init prunedTo6) .stateAtNumber 2 = .notfound ∧
-    heldRead repairedCfg (run repairedCfg St.init prunedTo6) 2 = .stale 5 ∧
-    heldRead { repairedCfg with legacy := false } (run { repairedCfg with legacy := false } St.init prunedTo6) 2 = .ok :=
+    heldRead repairedCfg (run repairedCfg St.init prunedTo6) false 2 = .stale 5 ∧
+    heldRead repairedCfg (run repairedCfg St.init prunedTo6) true 2 = .stale 5 ∧
+    heldRead { repairedCfg with legacy := false } (run { repairedCfg with legacy := false } St.init prunedTo6) false 2 = .ok :=
   ⟨by decide, reach_run Reach.init _ (by decide), by decide⟩
+
+/-- FULL STRENGTH with the proposed guard (proposed-fixes/C16-legacy-reader-held-across-prune.diff: the
+legacy historical reader repeats its retention check after every read): in every reachable state a reader
+that was handed out at ANY earlier time answers like a reader opened now — never another block's state
+— and in the history above it is refused. -/
+theorem held_reader_guarded (c : Cfg) (hg : c.readerGuard = true) (s : St) (R : Reach c s) (h : Nat)
+    (hh : s.db.height = some h) (byHash : Bool) (b m : Nat) : heldRead c s byHash b ≠ .stale m := by
+  have I := inv_reach R
+  unfold Inv at I; rw [hh] at I; obtain ⟨a, IA, _⟩ := I
+  unfold heldRead
+  cases hl : c.legacy with
+  | true =>
+    simp only [hg, hl, Bool.and_self, if_true]
+    exact never_stale hh IA _ b m
+  | false =>
+    simp only [hl, Bool.and_false, Bool.false_eq_true, if_false, hh]
+    unfold stateRead
+    simp [hl]
+
+theorem guarded_held_reader_refused :
+    let c : Cfg := { repairedCfg with readerGuard := true }
+    heldRead c (run c St.init prunedTo6) false 2 = .notfound ∧ heldRead c (run c St.init prunedTo6) true 2 = .notfound ∧
+    heldRead c (run c St.init prunedTo6) false 5 = .ok := by decide
 
 /-! ## stale_new_head_event -/
 
